@@ -62,8 +62,8 @@ package cert
 
 //@ # ---------------------------------------------------------------- C07 (validity window)
 //@ # ValidAfter / ValidBefore are uint64 seconds; values above MaxInt64 (incl. the "forever" value 2^64-1) are clamped
-//@ ghost pure func clampT(u int) int = u > 9223372036854775807 ? 9223372036854775807 : u
-//@ ghost pure func inWindow(va int, vb int, now int) bool = clampT(va) <= now && now <= clampT(vb)
+//@ ghost func clampT(u int) int = u > 9223372036854775807 ? 9223372036854775807 : u
+//@ ghost func inWindow(va int, vb int, now int) bool = clampT(va) <= now && now <= clampT(vb)
 
 //@ func ValidateSSHCertTime(cert, currentTime)
 //@   ensures cert == nil ==> !result
